@@ -29,6 +29,7 @@ import (
 	"verifharness/ref/rsm2"
 	"verifharness/ref/rsm3"
 	"verifharness/ref/rsm4"
+	"verifharness/sm2x"
 	"verifharness/tlsx"
 )
 
@@ -129,7 +130,7 @@ func prepare(t *rapid.T) *material {
 	if m.blk, err = sm4.NewCipher(m.key16); err != nil {
 		t.Fatalf("NewCipher: %v", err)
 	}
-	refc := rsm4.New(m.key16)
+	refc, _ := rsm4.New(m.key16)
 	for i := 0; i < 8; i++ {
 		b := gen.BytesN(16).Draw(t, "block")
 		w := make([]byte, 16)
@@ -137,7 +138,7 @@ func prepare(t *rapid.T) *material {
 		m.blocks, m.encWant = append(m.blocks, b), append(m.encWant, w)
 	}
 	kp := gen.KeyPair(hx.Root()).Draw(t, "key")
-	m.priv, m.d, m.pub = kp.Priv, kp.D, kp.Pub
+	m.priv, m.d, m.pub = sm2x.Priv(kp), kp.D, kp.Pub
 	for i := 0; i < 4; i++ {
 		msg := rapid.SliceOfN(rapid.Byte(), 1, 200).Draw(t, "msg")
 		m.msgs = append(m.msgs, msg)
@@ -249,7 +250,7 @@ func (m *material) run(o op) string {
 			return "Sign error: " + err.Error()
 		}
 		r, s, ok := rsm2DER(sig)
-		if !ok || !rsm2.Verify(rsm2.Std, m.pub, rsm2.DefaultUID, m.msgs[i], r, s) {
+		if !ok || !rsm2.Std.Verify(m.pub, rsm2.DefaultUID, m.msgs[i], r, s) {
 			return fmt.Sprintf("signature made concurrently is rejected by the reference verifier: %x", sig)
 		}
 	case "sm2_verify":
@@ -269,7 +270,7 @@ func (m *material) run(o op) string {
 		if err != nil {
 			return "Encrypt error: " + err.Error()
 		}
-		pt, err := rsm2.Decrypt(rsm2.Std, m.d, ct[1:], o.Sel%2 == 0)
+		pt, err := rsm2.Std.Decrypt(m.d, ct, o.Sel%2)
 		if err != nil || !bytes.Equal(pt, m.msgs[i]) {
 			return fmt.Sprintf("ciphertext made concurrently is not opened by the reference decryptor (err=%v)", err)
 		}
@@ -451,7 +452,7 @@ func firstUseChild(spec string) int {
 					return
 				}
 				r, s, ok := rsm2DER(sig)
-				if !ok || !rsm2.Verify(rsm2.Std, rsm2.Point{X: wantX, Y: wantY}, rsm2.DefaultUID, []byte("first use"), r, s) {
+				if !ok || !rsm2.Std.Verify(rsm2.Point{X: wantX, Y: wantY}, rsm2.DefaultUID, []byte("first use"), r, s) {
 					errs[g] = "first signature rejected by the reference"
 				}
 			case "keygen":
